@@ -655,18 +655,22 @@ if parallel.use_mpi():
             patches = split_into_patches(worker_chunk, patch_centers)
             parallel.COMM.send(patches, dest=worker_config.writer_rank, tag=1)
 
+        # every sender signals its own end of data, messages of different
+        # ranks may overtake each other
+        parallel.COMM.send(EndOfQueue, dest=worker_config.writer_rank, tag=1)
         comm.Barrier()
 
     def writer_task(
         cache_directory: Path | str,
         *,
+        num_senders: int,
         chunk_info: DataChunkInfo,
         overwrite: bool = True,
         buffersize: int = -1,
     ) -> None:
         """A dedicated writer process that recieves a dictionary with patch IDs
         and patch data to write using a :obj:`CatalogWriter`, terminated when
-        receiving :obj:`EndOfQueue` sentinel."""
+        receiving an :obj:`EndOfQueue` sentinel from each of the senders."""
         recv = parallel.COMM.recv
         with CatalogWriter(
             cache_directory,
@@ -674,8 +678,13 @@ if parallel.use_mpi():
             overwrite=overwrite,
             buffersize=buffersize,
         ) as writer:
-            while (patches := recv(source=MPI.ANY_SOURCE, tag=1)) is not EndOfQueue:
-                writer.process_patches(patches)
+            num_active = num_senders
+            while num_active > 0:
+                patches = recv(source=MPI.ANY_SOURCE, tag=1)
+                if patches is EndOfQueue:
+                    num_active -= 1
+                else:
+                    writer.process_patches(patches)
 
     def write_patches(
         path: Path | str,
@@ -738,6 +747,7 @@ if parallel.use_mpi():
         if rank == worker_config.writer_rank:
             writer_task(
                 cache_directory=path,
+                num_senders=len(worker_config.active_ranks),
                 chunk_info=reader.copy_chunk_info(drop_patch_ids=True),
                 overwrite=overwrite,
                 buffersize=buffersize,
@@ -758,8 +768,6 @@ if parallel.use_mpi():
 
             worker_comm.Free()
 
-        if parallel.COMM.Get_rank() == worker_config.reader_rank:
-            parallel.COMM.send(EndOfQueue, dest=worker_config.writer_rank, tag=1)
         parallel.COMM.Barrier()
 
 else:
